@@ -212,7 +212,7 @@ def run(tier="quick", seed=0, arg=None):
             "rule": "version-text grammar: %d version texts (epochs, 1-4 release segments, a/b/rc, post, dev, alternative spellings) x operators incl. ~= and wildcards, "
                     "comma-joined pairs, near-miss invalid strings; expression trees of depth <= 3 over the accepted leaves; membership compared with "
                     "packaging on %d final releases; distinct = accepted specifier texts" % (len(vtexts) + len(alt), len(finals)),
-            "samples": samples, "failures": fails[:300], "n_failures": len(fails), "bound": f"{len(leaves)} leaf texts, {ntrees} trees"}
+            "samples": samples, "failures": fails[:3000], "n_failures": len(fails), "bound": f"{len(leaves)} leaf texts, {ntrees} trees"}
 
 
 def _safe_str(s):
